@@ -176,7 +176,9 @@ func runC12(tier string) int {
 				continue
 			}
 			inner := "poryswitch(V) {\n" + strings.Join(cases, "\n") + "\n}"
-			src := pos.wrap(inner)
+			// constants that happen to be named like case labels or switch values (they must not take part in the selection)
+			constPrefix := "const A = 1\nconst B = A\nconst Z = A\n"
+			src := constPrefix + pos.wrap(inner)
 			for _, v := range vals {
 				sw := map[string]string{"V": v, "W": "1"}
 				selIdx, defIdx := -1, -1
@@ -218,7 +220,7 @@ func runC12(tier string) int {
 					}
 					continue
 				}
-				selSrc := pos.wrap(sels[selIdx])
+				selSrc := constPrefix + pos.wrap(sels[selIdx])
 				ref := comp.Compile(selSrc, o)
 				if ref.Err != nil || ref.Panic != "" {
 					r.Add("selected_program_rejected", 1)
@@ -247,7 +249,7 @@ func runC12(tier string) int {
 	r.Assume("generator-side selection: the case whose label equals the -s value, else '_'",
 		"a poryswitch nested in a non-selected case must itself have a matching case or '_' (the property's last clause is not limited to selected positions)",
 		"the selected program must itself be well-formed; case contents never contain 'continue'",
-		"line markers off; all switch keys defined")
+		"line markers off; all switch keys defined; the file also defines constants named like case labels and switch values")
 	return r.Finish(r.Get("evaluations"), r.Get("nontrivial"),
 		"every poryswitch with 1-3 distinct case labels from {A, B, 1, _} in every order x colon/brace form per case x every content assignment (9-11 statement contents incl. inline texts, typed texts, labels, control flow, nested poryswitches; 5 text contents incl. typed, formatted and multi-part; 7 movement and 6 mart contents incl. nested poryswitches, multipliers, terminators) in 8 positions (statement, in if, in loop, in inline map script, text, movement, moves(), mart) x -s value in {A, B, 1, non-matching}; output compared byte for byte with the program in which the selected case is written out; non-trivial = >= 2 cases")
 }
